@@ -19,6 +19,9 @@ QUICK = {
     'C15/convert_string/hex1': [dict(env={'XH_N': 2}, parts=8, timeout=300, label='<=2 bytes, exactly one \\xHH at a symbolic position, other raw|named')],
     'C15/convert_char_const': [dict(env={}, timeout=120, label='one byte, raw|named')],
     'C15/convert_binary_string': [dict(env={'XH_N': 1}, parts=4, timeout=300, label='<=1 byte, per-nibble case, optional blanks')],
+    # (parts = size of the byte alphabet: the members are pairwise different mod 6, so each part is one value of the first byte)
+    'C15/convert_binary_string/words': [dict(env={'XH_N': 3}, parts=6, timeout=300,
+                                             label='2..3 bytes, each a solver-chosen member of {00,01,0a,41,80,ff}, hex pairs grouped into words: every composition (blank or no blank between neighbours)')],
     'C15/convert_int_dispatch': [dict(env={'XH_N': 2}, timeout=400, label='sign x {dec,0x,0b} x <=2 digits')],
     'C15/casei_pair': [dict(env={}, timeout=120, label='one byte 0..255')],
     'C15/c_literal': [dict(env={'XH_N': 2, 'XH_K': 1}, parts=8, timeout=400, label='<=2 bytes, at most one outside 32..126'),
@@ -32,6 +35,8 @@ THOROUGH = {
     'C15/convert_char_const': [dict(env={}, timeout=120, label='one byte, raw|named')],
     'C15/convert_binary_string': [dict(env={'XH_N': 1}, parts=4, timeout=300, label='<=1 byte, per-nibble case, optional blanks')],
     'C15/convert_binary_string/pairs': [dict(env={}, parts=32, timeout=600, label='2 bytes "hhhh"b (lower-case digits)')],
+    'C15/convert_binary_string/words': [dict(env={'XH_N': 4}, parts=6, timeout=1200,
+                                             label='2..4 bytes, each a solver-chosen member of {00,01,0a,41,80,ff}, hex pairs grouped into words: every composition (blank or no blank between neighbours)')],
     'C15/convert_int_dispatch': [dict(env={'XH_N': 2}, timeout=400, label='sign x {dec,0x,0b} x <=2 digits'),
                                  dict(env={'XH_N': 3}, parts=16, timeout=600, label='sign x {dec,0x,0b} x <=3 digits')],
     'C15/casei_pair': [dict(env={}, timeout=120, label='one byte 0..255')],
@@ -45,7 +50,9 @@ EXPLANATION = (
     'with z3) that explores ALL byte values 0..255 per position, all positions and all spellings (raw / \\xhh / \\xHH / named escape) '
     'within the bound listed per condition; "Confirmed over all paths" = the contract holds for every input in that bound. '
     'Bounds actually reached (see bounds/conditions): string decoding <=4 bytes with raw/named spellings and with one hex-spelled byte '
-    '(other bytes raw), <=2 bytes with one hex-spelled byte next to raw/named, 2 bytes both hex-spelled (thorough); C literal emission '
+    '(other bytes raw), <=2 bytes with one hex-spelled byte next to raw/named, 2 bytes both hex-spelled (thorough); binary strings: one byte with all '
+    '256 values, per-nibble case and optional blanks, 2 bytes "hhhh" with all values (thorough), and 2..3 (thorough 4) bytes over a 6-value alphabet with every '
+    'grouping of the hex pairs into words; C literal emission '
     '<=4 (quick 3) bytes in 32..126, <=2 bytes with at most one byte outside 32..126 - NOT the full <=4 x 256 of DESIGN §4, because '
     'nmfu decodes/encodes hex digits through int(..,16)/format(), which CrossHair can only execute by solver-enumerating the digit values. '
     'Literals with known defects: the region of each listed finding is searched separately (its witness is replayed -> KNOWN-FINDING) and '
